@@ -14,7 +14,7 @@ META = {
         "winners start as [first candidate] and replace the candidates by mem::swap after each case; (R08.3) the loop is left only by "
         "exhausting the cases, by the break that is control-dependent on `remaining.is_empty()`, or by an error return; (R08.4) the survivors are "
         "shuffled with the supplied rng before first() is returned; (R08.5) result polarity: Error<T>'s reversed Ord (rules shared with C15). "
-        "NOT decided: the selection probabilities over all case permutations (a statement about runtime distributions)."),
+        "NOT decided: the selection probabilities over all case permutations (a statement about runtime distributions). (R08.6) Lexicase::new stores the configured number of test cases. The head/tail roles of the per-case filter are recognised in their equivalent spellings (split_first; first() with iter().skip(1) or [1..]; tail.is_empty() or len() == 1)."),
     "rules": {
         "R08.1": "case indices = collect(0..self.num_test_cases); SliceRandom::shuffle(cases, rng) precedes into_iter(cases) of the filtering loop",
         "R08.2": "per-case filter: get(results, current case) for both sides; Ord::cmp(this, best); Less/Equal/Greater arm effects; winners seeded with the first candidate; mem::swap(candidates, winners) at the end of each case",
